@@ -21,6 +21,10 @@ Init ==
         /\ bk \in ks                                   \* the body carries the marker of a declared entry
         /\ case = [part |-> "pick", keys |-> SetToSortSeq(ks, LAMBDA a, b : TRUE), status |-> st, method |-> m,
                    includeStatus |-> inc, bodyKey |-> bk]
+   \/ \E hd \in {"objExp", "objNoExp"}, hv \in {"absent", "5", "abc", "1,2", "a=1,b=2", "a=1,b=9", "b=2", "a,1,b,2", "a,1,b,9", "b,2"},
+         mu \in BOOLEAN, ct \in {Json} :
+        case = [part |-> "def", hd |-> hd, hv |-> hv, decl |-> "json", ct |-> ct, req |-> "qw", ctText |-> Render(ct),
+                body |-> O(<<"q", "w">>, <<Num(4), S(<<"s">>)>>), excludeBody |-> FALSE, excludeWO |-> TRUE, multi |-> mu]
    \/ \E hd \in {"none", "intReq", "intOpt", "arrOpt", "arrMax1", "contentReq", "contentOpt"}, hv \in {"absent", "5", "abc", "1,2"},
          d \in {"none", "json", "jsonNoSchema", "text", "wild", "jsonAndText"}, ct \in CTs,
          b \in JsonBodies \cup TextBodies \cup RawBodies, xb \in BOOLEAN, xw \in BOOLEAN, mu \in BOOLEAN, rq \in {"qw", "qrw"} :
